@@ -211,6 +211,33 @@ fn heads(bytes: &[u8]) -> Vec<(usize, u8)> {
     out
 }
 
+/// Every definite-length map of a well-formed encoding with 1..22 entries: (offset of its head, entries as
+/// (start, end, value is an integer or bignum)).
+fn map_entries(bytes: &[u8]) -> Vec<(usize, Vec<(usize, usize, bool)>)> {
+    use crate::decode::cbor::{decode_all, Node, C};
+    fn walk(n: &Node, bytes: &[u8], out: &mut Vec<(usize, Vec<(usize, usize, bool)>)>) {
+        match &n.v {
+            C::Array(items, _) => items.iter().for_each(|i| walk(i, bytes, out)),
+            C::Map(entries, indefinite) => {
+                if !*indefinite && !entries.is_empty() && entries.len() < 23 && bytes[n.start] & 0x1f < 23 {
+                    out.push((n.start, entries.iter().map(|(k, v)| (k.start, v.end, matches!(&v.v, C::UInt(_) | C::NInt(_)) || matches!(&v.v, C::Tag(t, _) if *t == 2 || *t == 3))).collect()));
+                }
+                for (k, v) in entries {
+                    walk(k, bytes, out);
+                    walk(v, bytes, out);
+                }
+            }
+            C::Tag(_, inner) => walk(inner, bytes, out),
+            _ => {}
+        }
+    }
+    let mut out = vec![];
+    if let Ok(root) = decode_all(bytes) {
+        walk(&root, bytes, &mut out);
+    }
+    out
+}
+
 impl C11 {
     fn hostile(&self, ctx: &mut Ctx, idx: u64, rng: &mut Rng) {
         // base encodings
@@ -322,6 +349,39 @@ impl C11 {
                     let w = 1 + rng.usize(4);
                     let r = rng.bytes(w);
                     b[i..i + w].copy_from_slice(&r);
+                }
+                b
+            }
+            8 if idx % 2 == 0 => {
+                // a well-formed map with one of its entries repeated (count adjusted): a key the encoder never
+                // writes twice. The base holds a UTxO set whose amounts sit at the ends of the i128 range, so that
+                // a reader that merges repeated classes instead of keeping one has to add them up
+                let mut t = gen.tx(rng);
+                let big = [i128::MAX, i128::MAX - 1, i128::MIN, i128::MIN + 1, 1 << 126, -(1 << 126), 1, 7];
+                let mut set = std::collections::HashSet::new();
+                for k in 0..1 + rng.usize(2) {
+                    let mut assets = tx3_tir::model::assets::CanonicalAssets::from_naked_amount(*rng.pick(&big));
+                    if rng.bool() {
+                        assets = assets + tx3_tir::model::assets::CanonicalAssets::from_defined_asset(&rng.bytes(28), b"T", *rng.pick(&big));
+                    }
+                    if rng.chance(1, 3) {
+                        assets = assets + tx3_tir::model::assets::CanonicalAssets::from_named_asset(b"named", *rng.pick(&big));
+                    }
+                    set.insert(tx3_tir::model::core::Utxo { r#ref: tx3_tir::model::core::UtxoRef { txid: rng.bytes(32), index: k as u32 }, address: rng.bytes(29), assets, datum: None, script: None });
+                }
+                t.inputs.push(tir::Input { name: "dup".into(), utxos: tir::Expression::UtxoSet(set), redeemer: tir::Expression::None });
+                let mut b = to_bytes(&t).0;
+                let maps = map_entries(&b);
+                // maps with an integer-valued entry (asset amounts) three times in four
+                let numeric: Vec<&(usize, Vec<(usize, usize, bool)>)> = maps.iter().filter(|(_, es)| es.iter().any(|e| e.2)).collect();
+                let pick = if !numeric.is_empty() && rng.chance(3, 4) { Some(*rng.pick(&numeric)) } else if !maps.is_empty() { Some(rng.pick(&maps)) } else { None };
+                if let Some((head, entries)) = pick {
+                    let cands: Vec<&(usize, usize, bool)> = if entries.iter().any(|e| e.2) && rng.chance(3, 4) { entries.iter().filter(|e| e.2).collect() } else { entries.iter().collect() };
+                    let (from, to, numeric_value) = **rng.pick(&cands);
+                    let copy = b[from..to].to_vec();
+                    b.splice(to..to, copy);
+                    b[*head] += 1;
+                    ctx.count(if numeric_value { "repeated-map-entry/integer-valued" } else { "repeated-map-entry/other" });
                 }
                 b
             }
@@ -476,7 +536,7 @@ impl Property for C11 {
     }
 
     fn rule(&self) -> String {
-        "trees: random tir::Tx values (every Expression / Param / BuiltInOp / CompilerOp / Coerce / ScriptSource-free block variant, depth <= 6, ints over the i128 boundary set, usize::MAX constructors, byte strings 0..3000, UTxO sets with datums); lowered: every tx of every example program and of generated programs; hostile: 12 mutation kinds of valid encodings (random, bit flips, truncation, splice, length lies (at random offsets and at the head of every string / array / map of the encoding, located with the independent CBOR reader), nesting bombs to 1e5, valid deep lists to 1000, 11 kinds of expression wrapper nested 50..100000 deep in a typed position (raw bytes) - all nested inputs decoded on a 2 MiB thread, and once more by an unoptimised (dev-profile) probe binary on a 2 MiB thread, overwrites, duplications, bad utf-8, wrong major types, foreign values); versions: fixed list + random near-misses of 'v1beta0' + names of 31..70000 bytes mixing 1/2/3/4-byte characters with byte lengths on and around powers of two, direct and through TirEnvelope. Non-trivial: a tree whose serialisation uses >= 6 distinct IR variants / a distinct hostile byte string / a distinct version string.".into()
+        "trees: random tir::Tx values (every Expression / Param / BuiltInOp / CompilerOp / Coerce / ScriptSource-free block variant, depth <= 6, ints over the i128 boundary set, usize::MAX constructors, byte strings 0..3000, UTxO sets with datums); lowered: every tx of every example program and of generated programs; hostile: 12 mutation kinds of valid encodings (random, bit flips, truncation, splice, length lies (at random offsets and at the head of every string / array / map of the encoding, located with the independent CBOR reader), nesting bombs to 1e5, valid deep lists to 1000, 11 kinds of expression wrapper nested 50..100000 deep in a typed position (raw bytes) - all nested inputs decoded on a 2 MiB thread, and once more by an unoptimised (dev-profile) probe binary on a 2 MiB thread, overwrites, duplications, repeated entries in the encoding's own maps (incl. asset maps whose amounts sit at the ends of the i128 range), bad utf-8, wrong major types, foreign values); versions: fixed list + random near-misses of 'v1beta0' + names of 31..70000 bytes mixing 1/2/3/4-byte characters with byte lengths on and around powers of two, direct and through TirEnvelope. Non-trivial: a tree whose serialisation uses >= 6 distinct IR variants / a distinct hostile byte string / a distinct version string.".into()
     }
 
     fn assumptions(&self) -> Vec<String> {
@@ -527,6 +587,7 @@ impl Property for C11 {
         v.push("versions/rejected".into());
         v.push("versions/long-mixed-width".into());
         v.push("length-lie/major-5".into());
+        v.push("repeated-map-entry/integer-valued".into());
         v.push("length-lie/major-4".into());
         v.push("versions/accepted-current".into());
         v
